@@ -486,6 +486,25 @@ theorem inv_complete {τ : Type} {H : Hash} {Z : Zip τ} {x : Nat} {dm c l : Boo
         subst this
         exact ⟨by rw [b], b', c3⟩
 
+theorem inv_started {τ : Type} {H : Hash} {Z : Zip τ} {x : Nat} {dm c l : Bool} {rs : List Bytes} {s : Rx τ}
+    (h : Inv H Z x dm rs c l s) (hc : c = true) : s.started = true := by
+  cases h with
+  | idle _ q hq => exact absurd hc (by simp)
+  | active _ cl sp hlt hs => rfl
+  | done _ s h => exact h.started
+
+/-- without a reported loss the receiver cannot have failed with ConnectionClosed -/
+theorem inv_short_nolost {τ : Type} {H : Hash} {Z : Zip τ} {x : Nat} {dm c l : Bool} {rs : List Bytes} {s : Rx τ}
+    (h : Inv H Z x dm rs c l s) (hshort : rs.flatten.length < x) (hl : l = false) : s.result = .pending := by
+  rcases inv_short h hshort with hp | hf
+  · exact hp
+  · have hd := inv_done h (by rw [hf]; simp)
+    obtain ⟨_, _, _, b4⟩ := hd.bad _ hf
+    rcases b4 with b | b | b
+    · rw [hl] at b; exact absurd b.2 (by simp)
+    · exact absurd b.1 (by simp)
+    · exact absurd b.1 (by simp)
+
 theorem runRx_append {τ : Type} (H : Hash) (Z : Zip τ) (x : Nat) (dm : Bool) (stale : Option Bytes) (evs : List Ev) (e : Ev) :
     runRx (τ := τ) H Z x dm stale (evs ++ [e]) = evStep H Z (runRx H Z x dm stale evs) e := by
   simp [runRx, List.foldl_append]
